@@ -378,9 +378,28 @@ fn big_child(which: u8, huge: bool) -> ! {
         ok && b3.len() == n
     }
     use generic_array::typenum::{U31, U32};
+    /// box_arr![x; <usize expression>]: the length is an expression, so these cannot be generic over N
+    fn expr_forms(which: u8) -> bool {
+        use generic_array::typenum::{U32, U4194304};
+        match which {
+            20 => {
+                let b: Box<GenericArray<u8, U4194304>> = box_arr![7u8; 4194304];
+                b[0] == 7 && b[4194303] == 7 && b.len() == 1 << 22
+            }
+            21 => {
+                let b: Box<GenericArray<u8, U4194304>> = box_arr![7u8; 1 << 22];
+                b[0] == 7 && b[4194303] == 7
+            }
+            _ => {
+                let b: Box<GenericArray<Blk, U32>> = box_arr![Blk::at(7); 32];
+                b[0].tag() == 7 && b[31].tag() == 7
+            }
+        }
+    }
     let h = std::thread::Builder::new()
         .stack_size(256 * 1024)
         .spawn(move || match (which / 5, huge) {
+            (4, _) => expr_forms(which),
             (0, false) => go::<u8, U4194304>(which),
             (0, true) => go::<u8, U16777216>(which),
             (1, false) => go::<Blk, U32>(which),
@@ -402,8 +421,10 @@ fn run_big(which: u8, huge: bool) -> Result<(), String> {
     if out.status.success() && String::from_utf8_lossy(&out.stdout).contains("BIG-OK") {
         return Ok(());
     }
-    let name = ["default_boxed", "boxed generate", "box_arr![x; N]", "boxed collect", "try_boxed_from_iter"][which as usize % 5];
+    let name = if which >= 20 { "box_arr![x; <usize expression>]" } else { ["default_boxed", "boxed generate", "box_arr![x; N]", "boxed collect", "try_boxed_from_iter"][which as usize % 5] };
     let shape = match (which / 5, huge) {
+        (4, _) if which < 22 => "4 MiB array of u8",
+        (4, _) => "512 KiB array of 32 elements of 16 KiB",
         (0, false) => "4 MiB array of u8",
         (0, true) => "16 MiB array of u8",
         (1, false) => "512 KiB array of 32 elements of 16 KiB",
@@ -514,6 +535,9 @@ pub fn main() {
         if args.thorough() || which < 2 {
             g.push(Case { n: 1 << 24, kind: Kind::U8, op: Op::Big(which, true), salt: 0 });
         }
+    }
+    for which in 20..23u8 {
+        g.push(Case { n: 1 << 22, kind: Kind::U8, op: Op::Big(which, false), salt: 0 });
     }
     // the unoptimised build only runs the small-stack constructions (everything else is identical to the optimised run)
     if std::env::var("VERIF_PROFILE").as_deref() == Ok("stk") {
